@@ -308,13 +308,40 @@ out:
 	relt_clear(&a); relt_clear(&g); relt_clear(&t); relt_clear(&r); relt_clear(&one); relt_clear(&q); mpz_clears(phi, e, NULL);
 }
 
+/* ---------------------------------------------------------------- byte codec of every tower (C07): args sel, tid, a */
+typedef int (*csz_fn)(void *); typedef void (*crd_fn)(void *, const uint8_t *, size_t); typedef void (*cwr_fn)(uint8_t *, size_t, const void *);
+#define CODP(N) static int w_sz##N(void *a) { return fp##N##_size_bin(a, 0); } static void w_rd##N(void *a, const uint8_t *b, size_t l) { fp##N##_read_bin(a, b, l); } static void w_wr##N(uint8_t *b, size_t l, const void *a) { fp##N##_write_bin(b, l, a, 0); }
+#define CODN(N) static int w_sz##N(void *a) { return fp##N##_size_bin(a); } static void w_rd##N(void *a, const uint8_t *b, size_t l) { fp##N##_read_bin(a, b, l); } static void w_wr##N(uint8_t *b, size_t l, const void *a) { fp##N##_write_bin(b, l, a); }
+CODP(2) CODN(3) CODN(4) CODN(6) CODP(8) CODN(9) CODP(12) CODP(16) CODP(18) CODP(24) CODP(48) CODP(54)
+static const struct { int N; csz_fn sz; crd_fn rd; cwr_fn wr; } COD[] = {{2, w_sz2, w_rd2, w_wr2}, {3, w_sz3, w_rd3, w_wr3}, {4, w_sz4, w_rd4, w_wr4}, {6, w_sz6, w_rd6, w_wr6}, {8, w_sz8, w_rd8, w_wr8}, {9, w_sz9, w_rd9, w_wr9},
+	{12, w_sz12, w_rd12, w_wr12}, {16, w_sz16, w_rd16, w_wr16}, {18, w_sz18, w_rd18, w_wr18}, {24, w_sz24, w_rd24, w_wr24}, {48, w_sz48, w_rd48, w_wr48}, {54, w_sz54, w_rd54, w_wr54}};
+static void do_cod(vf_case *c) {
+	tdesc *D = &TW[mpz_get_si(c->v[1])]; const rtower *T = &D->rt; int th, N = D->N, ci = -1; for (unsigned i = 0; i < sizeof COD / sizeof *COD; i++) if (COD[i].N == N) ci = (int)i; if (ci < 0) return;
+	relt a, g; relt_init(&a); relt_init(&g); unpack(&a, T, c->v[2]); static uint8_t buf[54 * 100 + 64], b2[54 * 100 + 64]; size_t FB = RLC_FP_BYTES, want = (size_t)N * FB; char w[96];
+	put(EA, T, &a); int sz = -1; VF_TRY(th, sz = COD[ci].sz(EA)); transitions++; if (th || (size_t)sz != want) { vf_fail(NULL, "fp%d_size_bin = %d, expected %zu", N, sz, want); goto out; }
+	memset(buf, 0xC7, sizeof buf); VF_TRY(th, COD[ci].wr(buf + 16, want, EA)); transitions++; if (th) { vf_fail(NULL, "fp%d_write_bin raised with the announced length", N); goto out; }
+	for (int i = 0; i < 16; i++) if (buf[i] != 0xC7 || buf[16 + want + i] != 0xC7) { vf_fail(NULL, "fp%d_write_bin wrote outside its buffer", N); goto out; }
+	/* canonical: every chunk is a residue below p, and the chunks are exactly the coefficients (as a multiset) */
+	{ mpz_t v; mpz_init(v); int used[54] = {0}; for (int k = 0; k < N; k++) { mpz_import(v, FB, 1, 1, 1, 0, buf + 16 + (size_t)k * FB); if (mpz_cmp(v, RX_P) >= 0) { vf_fail(NULL, "fp%d_write_bin: chunk %d is not below p", N, k); break; } int hit = 0; for (int j = 0; j < N && !hit; j++) if (!used[j] && !mpz_cmp(v, a.c[j])) { used[j] = 1; hit = 1; } if (!hit) { vf_fail(NULL, "fp%d_write_bin: chunk %d is not a coefficient of the element", N, k); break; } } mpz_clear(v); }
+	junk(EC, N); VF_TRY(th, COD[ci].rd(EC, buf + 16, want)); transitions++; snprintf(w, sizeof w, "fp%d_read_bin(fp%d_write_bin(a))", N, N); if (th) vf_fail(NULL, "%s raised", w); else expect(D, w, EC, &a, NULL);
+	VF_TRY(th, COD[ci].wr(b2, want - 1, EA)); transitions++; if (!th) vf_fail(NULL, "fp%d_write_bin accepted a buffer one byte short", N);
+	junk(EC, N); VF_TRY(th, COD[ci].rd(EC, buf + 16, want - 1)); transitions++; if (!th) vf_fail(NULL, "fp%d_read_bin accepted an encoding truncated by one byte", N);
+	memcpy(b2, buf + 16, want); b2[want] = 0; junk(EC, N); VF_TRY(th, COD[ci].rd(EC, b2, want + 1)); transitions++; if (!th) vf_fail(NULL, "fp%d_read_bin accepted an encoding with one byte appended", N);
+	/* a chunk that is not below p is never accepted: chunk + p (same residue) and p itself, at the first, a middle and the last position */
+	{ mpz_t v; mpz_init(v); int pos[3] = {0, N / 2, N - 1}; for (int pi = 0; pi < 3; pi++) for (int mu = 0; mu < 2; mu++) { memcpy(b2, buf + 16, want); uint8_t *q = b2 + (size_t)pos[pi] * FB; mpz_import(v, FB, 1, 1, 1, 0, q); if (mu) mpz_set(v, RX_P); else mpz_add(v, v, RX_P);
+			if (mpz_sizeinbase(v, 2) > 8 * FB) continue; memset(q, 0, FB); size_t n = (mpz_sizeinbase(v, 2) + 7) / 8; mpz_export(q + FB - n, NULL, 1, 1, 1, 0, v);
+			junk(EC, N); VF_TRY(th, COD[ci].rd(EC, b2, want)); transitions++; if (!th) vf_fail(NULL, "fp%d_read_bin accepted an encoding whose chunk %d is %s", N, pos[pi], mu ? "p itself" : "a coefficient plus p"); } mpz_clear(v); }
+out:
+	relt_clear(&a); relt_clear(&g);
+}
+
 static void run_case(vf_case *c) {
 	if (!select_prime(c->v[0])) { vf_fail(NULL, "prime refused"); return; }
 	long tid = mpz_get_si(c->v[1]); if (tid < 1 || tid >= NTW) { vf_fail(NULL, "bad tower"); return; }
 	if (!TW[tid].usable) return;
 	vf_nontrivial();
 	if (!strcmp(c->op, "bin")) do_bin(c); else if (!strcmp(c->op, "un")) do_un(c); else if (!strcmp(c->op, "frb")) do_frb(c); else if (!strcmp(c->op, "exp")) do_exp(c);
-	else if (!strcmp(c->op, "srt")) do_srt(c); else if (!strcmp(c->op, "cyc")) do_cyc(c); else if (!strcmp(c->op, "isim")) do_isim(c); else if (!strcmp(c->op, "cycx")) do_cycx(c); else vf_fail(NULL, "unknown op");
+	else if (!strcmp(c->op, "srt")) do_srt(c); else if (!strcmp(c->op, "cyc")) do_cyc(c); else if (!strcmp(c->op, "isim")) do_isim(c); else if (!strcmp(c->op, "cycx")) do_cycx(c); else if (!strcmp(c->op, "cod")) do_cod(c); else vf_fail(NULL, "unknown op");
 }
 
 /* ---------------------------------------------------------------- enumeration */
@@ -372,7 +399,7 @@ static void enumerate(void) {
 			/* tiny_exclusion: Frobenius-based routines (frb, srt, is_sqr, cyclotomic family) of the towers above degree 3 use constants that
 			 * exist only when p = 1 mod the tower's index (true inside every pairing family, not for arbitrary 16-bit primes): the tiny world
 			 * judges the ring operations of those towers only; the Frobenius-based ones are judged at the shipped pairing primes. */
-			for (int i = 0; i < d.n && !vf_expired(); i += st) if (vf_mine()) { run_el("un", sel, tid, d.v[i]);
+			for (int i = 0; i < d.n && !vf_expired(); i += st) if (vf_mine()) { run_el("un", sel, tid, d.v[i]); run_el("cod", sel, tid, d.v[i]);
 				for (int j = i % 3; j < d.n; j += (d.n > 60 ? d.n / 20 : 1)) { K.op = "bin"; K.n = 4; mpz_set(K.v[0], sel); mpz_set_si(K.v[1], tid); mpz_set(K.v[2], d.v[i]); mpz_set(K.v[3], d.v[j]); vf_run(&K); if ((i + j) % 3 == 0) { K.op = "isim"; vf_run(&K); } } }
 			vf_dom_clear(&d); }
 		vf_bound_done(bn);
@@ -404,7 +431,7 @@ static void enumerate(void) {
 			vf_dom d; vf_dom_init(&d); tower_alphabet(&d, tid);
 			int budget = vf_tier ? 3000 : (TW[tid].N <= 4 ? 400 : TW[tid].N <= 12 ? 160 : 24);
 			int st = d.n > budget ? d.n / budget : 1, pairs = TW[tid].N <= 4 ? 40 : (TW[tid].N <= 12 ? 12 : 4);
-			for (int i = 0; i < d.n && !vf_expired(); i += st) if (vf_mine()) { run_el("un", sel, tid, d.v[i]);
+			for (int i = 0; i < d.n && !vf_expired(); i += st) if (vf_mine()) { run_el("un", sel, tid, d.v[i]); run_el("cod", sel, tid, d.v[i]);
 				if (i % (8 * st) == 0) run_el("frb", sel, tid, d.v[i]);
 				if (TW[tid].srt && i % (4 * st) == 0) run_el("srt", sel, tid, d.v[i]);
 				if (TW[tid].N == 12 && i % (2 * st) == 0) run_el("cyc", sel, tid, d.v[i]);
